@@ -119,6 +119,9 @@ class TypePrinter:
     @_visit.register
     def _visit_TupleType(self, ty: TupleType, inside_row: bool) -> str:
         args = ", ".join(self._visit(arg, True) for arg in ty.args)
+        if len(ty.args) == 1:
+            # A 1-tuple needs the trailing comma, otherwise it reads as its element
+            return f"({args},)"
         return f"({args})"
 
     @_visit.register
